@@ -396,7 +396,9 @@ class Timestamp(Primitive):
             raise ValidationError('expected timestamp, got %s'
                                   % generic_type_name(val))
         elif val.tzinfo is not None and \
-                val.tzinfo.utcoffset(val).total_seconds() != 0:
+                (val.tzinfo.utcoffset(val) or
+                 datetime.timedelta(0)).total_seconds() != 0:
+            # A tzinfo whose utcoffset() is None makes the value naive.
             raise ValidationError('timestamp should have either a UTC '
                                   'timezone or none set at all')
         return val
